@@ -7,6 +7,7 @@
 #![allow(clippy::all)]
 #![allow(dead_code)]
 
+mod alloc_count;
 mod c01;
 mod c02;
 mod c03;
@@ -31,6 +32,10 @@ mod c20;
 mod common;
 
 use std::io::{BufRead, Write};
+
+// counting allocator for C07 (inactive outside `alloc_count::measure`)
+#[global_allocator]
+static GLOBAL: alloc_count::Counting = alloc_count::Counting;
 
 fn main() {
     // panics are results, not noise
